@@ -96,3 +96,95 @@ Print Assumptions C01_prob_is_product_translated.
 Print Assumptions C01_prob_is_product.
 Print Assumptions C01_binary64.
 Print Assumptions C01_python_lt_is_plt.
+
+(* ---- third tie to the source: gen/Queue_gen.v is the translation of the Python text of the
+   priority-queue OBJECT (lib_guesser/priority_queue.py: class QueueItem with its six comparison
+   methods, PcfgQueue.__init__ / next / insert_queue; harness/translate_queue.py, redone on every
+   run).  heapq itself is not translated: push / pop are arbitrary functions meeting its contract
+   for the translated __lt__ (push_ok, heap_ok py_QueueItem_lt).  up / un / ui: the undefined
+   values; flit: the meaning of a float literal (the identity for binary64); fuel: only used by a
+   restored session. ---- *)
+From Coq Require Import NArith.
+From Pcfg Require Import QueueRt QueueModel QueueProofs QueueGenProofs.
+From PcfgGen Require Import Queue_gen.
+
+(* which field is compared and in which direction: heapq is a min-heap, so __lt__ is "more probable" *)
+Theorem C01_source_queue_item_order_is_model :
+  forall (A : palg) (a b : item A), okb (iprob a) = true -> okb (iprob b) = true ->
+  py_QueueItem_lt a b = plt (iprob b) (iprob a) /\ py_QueueItem_le a b = ple (iprob b) (iprob a) /\
+  py_QueueItem_eq a b = peq (iprob a) (iprob b) /\ py_QueueItem_ne a b = negb (peq (iprob a) (iprob b)) /\
+  py_QueueItem_gt a b = plt (iprob a) (iprob b) /\ py_QueueItem_ge a b = ple (iprob a) (iprob b).
+Proof.
+  exact (fun A a b Ha Hb => conj (queue_item_lt_eq a b Ha Hb) (conj (queue_item_le_eq a b Ha Hb) (conj (queue_item_eq_eq a b Ha Hb)
+          (conj (queue_item_ne_eq a b Ha Hb) (conj (queue_item_gt_eq a b Ha Hb) (queue_item_ge_eq a b Ha Hb)))))).
+Qed.
+
+(* heapq over the translated __lt__ is exactly the queue contract the theorems above assume *)
+Theorem C01_source_heap_contract_is_model :
+  forall (A : palg) (pop : heap A -> option (item A * heap A)), heap_ok py_QueueItem_lt pop <-> pop_ok_okb pop.
+Proof. exact (fun A pop => queue_heap_contract pop). Qed.
+
+(* PcfgQueue.next = the model's next (pop, record the popped probability, push the children, return the
+   popped item), for every object, over the translated find_children *)
+Theorem C01_source_next_is_model :
+  forall (A : palg) (up : P A) (un : var * nat) (ui : item A) (push : heap A -> item A -> heap A)
+         (pop : heap A -> option (item A * heap A)) (rs : ruleset A) (q : pcfg_queue A),
+  (forall h, pop h = None <-> h = nil) ->
+  py_PcfgQueue_next up un ui push pop rs q = q_next push pop (py_find_children up un rs) q.
+Proof. exact (fun A up un ui push pop rs q => queue_next_eq up un ui push pop rs q). Qed.
+
+(* PcfgQueue(pcfg) = the model's initial object: the base items pushed on an empty heap, 1.0 / 0.0 / 50000 *)
+Theorem C01_source_init_is_model :
+  forall (A : palg) (up : P A) (un : var * nat) (flit : float -> P A) (rs : ruleset A), wf rs ->
+  forall (push : heap A -> item A -> heap A) (fuel : nat),
+  py_PcfgQueue_init up un flit push fuel rs None = q_start push (flit 1%float) (flit 0%float) 50000%N rs.
+Proof. exact (fun A up un flit rs H push fuel => queue_init_new_model up un flit rs H push fuel). Qed.
+
+(* one call of the model's next against one step of Next.v: same item, same heap contents *)
+Theorem C01_queue_model_step_is_next_step :
+  forall (A : palg) (push : heap A -> item A -> heap A) (pop : heap A -> option (item A * heap A)), push_ok push ->
+  forall (rs : ruleset A) (s : list (item A) * pcfg_queue A),
+  emitted (q_view (q_step (q_next push pop (find_children rs)) s)) = emitted (step pop rs (q_view s)) /\
+  Permutation (pending (q_view (q_step (q_next push pop (find_children rs)) s))) (pending (step pop rs (q_view s))).
+Proof. exact (fun A push pop H rs s => q_step_view push pop H rs s). Qed.
+
+(* C01 for a session over the translated object: PcfgQueue(pcfg) and n calls of next *)
+Theorem C01_sorted_every_prefix_queue_translated :
+  forall (A : palg) (up : P A) (un : var * nat) (ui : item A) (flit : float -> P A) (rs : ruleset A), wf rs ->
+  forall (push : heap A -> item A -> heap A) (pop : heap A -> option (item A * heap A)),
+  push_ok push -> heap_ok py_QueueItem_lt pop -> forall fuel n : nat,
+  let s := py_session up un ui flit push pop fuel rs None n in
+  nonincreasing (rev (fst s)) /\
+  (forall e q, In e (fst s) -> In q (p_queue (snd s)) -> ple (iprob q) (iprob e) = true) /\
+  match fst s with
+  | nil => max_probability (snd s) = flit 1%float
+  | cons x _ => max_probability (snd s) = iprob x
+  end.
+Proof.
+  exact (fun A up un ui flit rs H push pop Hpush Hpop fuel n =>
+           queue_sorted_every_prefix up un ui flit rs H push pop Hpush (proj1 (queue_heap_contract pop) Hpop) fuel n).
+Qed.
+
+Theorem C01_prob_is_product_queue_translated :
+  forall (A : palg) (up : P A) (un : var * nat) (ui : item A) (flit : float -> P A) (rs : ruleset A), wf rs ->
+  forall (push : heap A -> item A -> heap A) (pop : heap A -> option (item A * heap A)),
+  push_ok push -> heap_ok py_QueueItem_lt pop -> forall (fuel n : nat) (it : item A),
+  let s := py_session up un ui flit push pop fuel rs None n in
+  In it (fst s ++ p_queue (snd s)) ->
+  iprob it = py_find_prob up rs (ipt it) (ibase it) /\ In it (all_preterminals rs).
+Proof.
+  exact (fun A up un ui flit rs H push pop Hpush Hpop fuel n it =>
+           queue_prob_is_product up un ui flit rs H push pop Hpush (proj1 (queue_heap_contract pop) Hpop) fuel n it).
+Qed.
+
+(* non-vacuity: the demo ruleset, a list heap, a whole run and a save / restore cycle over the translated object *)
+Theorem C01_queue_hypotheses_satisfiable :
+  wf demo_rs /\ push_ok (@list_push F64) /\ heap_ok py_QueueItem_lt (@pop_first_max F64) /\
+  length (fst (demo_session None 44)) = 44.
+Proof.
+  exact (conj demo_wf (conj list_push_ok (conj (proj2 (queue_heap_contract _) pop_first_max_ok_partial)
+          (proj1 (proj2 (proj2 (proj2 (proj2 queue_hypotheses_satisfiable)))))))).
+Qed.
+
+Print Assumptions C01_sorted_every_prefix_queue_translated.
+Print Assumptions C01_source_queue_item_order_is_model.
